@@ -374,6 +374,8 @@ pub enum CStep {
     /// persistent instance (Raft origin) registered / removed over HTTP; only generated for the C11 cluster scenario
     PersistReg { node: u8, svc: u8, ip: u8 },
     PersistDereg { node: u8, svc: u8, ip: u8 },
+    /// kill `node`; after `delay_ms` the clients of its gRPC connections register the same addresses again through `to`
+    Failover { node: u8, to: u8, conn: u8, delay_ms: u64 },
 }
 
 /// per-node memory of the bookkeeping oracle (C11 cluster scenario)
@@ -549,7 +551,12 @@ pub async fn exec_c15_mode(script: Value, bookkeeping: bool) -> ExecResult {
         // every key that ever saw an HTTP operation; whether any fault was injected in this run
         let mut http_touched: BTreeSet<(u8, u8)> = BTreeSet::new();
         let mut faulted = false;
-        let mut owners_seen: BTreeMap<(u8, u8), BTreeSet<(u64, u8)>> = BTreeMap::new();
+        // previous gRPC owners of a key: (node, connection, number of kills of that node when it registered). A hand-over is
+        // exposed to the previous owner's delayed sync messages (F27) only if that owner's node has not been killed between
+        // its registration and the new one: a killed incarnation sends nothing and a restarted node remembers nothing
+        let mut owners_seen: BTreeMap<(u8, u8), BTreeSet<(u64, u8, u32)>> = BTreeMap::new();
+        let mut kills: BTreeMap<u64, u32> = BTreeMap::new();
+        let mut handed_risky: BTreeSet<(u8, u8)> = BTreeSet::new();
         // when an HTTP address was last deregistered (us)
         let mut http_removed_at: BTreeMap<(u8, u8), u64> = BTreeMap::new();
         let mut rng = Rng::derive(seed, "C15.exec", 0);
@@ -609,6 +616,23 @@ pub async fn exec_c15_mode(script: Value, bookkeeping: bool) -> ExecResult {
                     if rest == 0 {
                         break;
                     }
+                }
+            }};
+        }
+        macro_rules! grpc_reg {
+            ($x:expr, $c:expr, $s:expr, $a:expr) => {{
+                let (x, c, s, a): (u64, u8, u8, u8) = ($x, $c, $s, $a);
+                if grpc_instance(&node(x).unwrap(), &c_conn(x, c), CSVCS[s as usize], &c_ip(a), true).await {
+                    grpc_alive.insert((s, a), (x, c));
+                    let kx = kills.get(&x).copied().unwrap_or(0);
+                    let prev = owners_seen.entry((s, a)).or_default();
+                    if prev.iter().any(|(pn, pc, pk)| (*pn, *pc) != (x, c) && kills.get(pn).copied().unwrap_or(0) == *pk) {
+                        handed_risky.insert((s, a));
+                    } else if prev.iter().any(|(pn, pc, _)| (*pn, *pc) != (x, c)) {
+                        sim::count("probe.handover_after_owner_node_died", 1);
+                    }
+                    prev.insert((x, c, kx));
+                    ops += 1;
                 }
             }};
         }
@@ -674,10 +698,33 @@ pub async fn exec_c15_mode(script: Value, bookkeeping: bool) -> ExecResult {
                     if http_alive.contains_key(&(s, a)) || grpc_alive.get(&(s, a)).map(|o| *o != (x, *conn % 2)).unwrap_or(false) {
                         continue;
                     }
-                    if grpc_instance(&node(x).unwrap(), &c_conn(x, *conn), CSVCS[s as usize], &c_ip(a), true).await {
-                        grpc_alive.insert((s, a), (x, *conn % 2));
-                        owners_seen.entry((s, a)).or_default().insert((x, *conn % 2));
-                        ops += 1;
+                    grpc_reg!(x, *conn % 2, s, a);
+                }
+                CStep::Failover { node: x, to, conn, delay_ms } => {
+                    // a node dies and the clients of its connections reconnect to another node and register again -
+                    // before or after the survivors have declared the node dead (15 s)
+                    let x = pick_node(*x);
+                    let mut t = pick_node(*to);
+                    if t == x {
+                        t = x % nn + 1;
+                    }
+                    if !killed.is_empty() || nn < 2 {
+                        continue;
+                    }
+                    let held: Vec<(u8, u8)> = grpc_alive.iter().filter(|(_, o)| o.0 == x).map(|(k, _)| *k).collect();
+                    kill_node(x).await;
+                    killed.insert(x);
+                    *kills.entry(x).or_insert(0) += 1;
+                    faulted = true;
+                    sim::count("fault.kill", 1);
+                    grpc_alive.retain(|_, o| o.0 != x);
+                    adv!(*delay_ms);
+                    for (s, a) in held {
+                        if http_alive.contains_key(&(s, a)) || grpc_alive.contains_key(&(s, a)) {
+                            continue;
+                        }
+                        grpc_reg!(t, *conn % 2, s, a);
+                        sim::count("probe.failover_reregistration", 1);
                     }
                 }
                 CStep::GrpcDereg { node: x, conn, svc, ip } => {
@@ -723,6 +770,7 @@ pub async fn exec_c15_mode(script: Value, bookkeeping: bool) -> ExecResult {
                     if killed.is_empty() {
                         kill_node(x).await;
                         killed.insert(x);
+                        *kills.entry(x).or_insert(0) += 1;
                         faulted = true;
                         sim::count("fault.kill", 1);
                         // its connections die with it
@@ -829,7 +877,7 @@ pub async fn exec_c15_mode(script: Value, bookkeeping: bool) -> ExecResult {
             }
             // (F27) an address that changed hands: the previous owner's delayed messages may overwrite the newer
             // registration's fields as well as delete it
-            let handed: BTreeSet<String> = grpc_alive.keys().filter(|k| k.0 == s && (http_touched.contains(k) || owners_seen.get(k).map(|o| o.len() > 1).unwrap_or(false))).map(|k| c_ip(k.1)).collect();
+            let handed: BTreeSet<String> = grpc_alive.keys().filter(|k| k.0 == s && (http_touched.contains(k) || handed_risky.contains(k))).map(|k| c_ip(k.1)).collect();
             if !handed.is_empty() {
                 let views: Vec<BTreeSet<(String, bool, bool, u32)>> = per_node.values().map(|v| v.iter().filter(|e| handed.contains(&e.0)).cloned().collect()).collect();
                 if views.iter().any(|v| *v != views[0]) {
@@ -959,7 +1007,14 @@ impl Check for C15 {
             } else if r < 90 && use_cut {
                 if rng.chance(0.6) { CStep::Cut { a: node, b: rng.below(3) as u8 } } else { CStep::Heal }
             } else if r < 95 && use_kill {
-                if rng.chance(0.5) { CStep::Kill { node } } else { CStep::Restart { node } }
+                let k = rng.below(100);
+                if k < 35 {
+                    CStep::Kill { node }
+                } else if k < 55 {
+                    CStep::Failover { node, to: rng.below(3) as u8, conn, delay_ms: *rng.pick(&[50u64, 1000, 5000, 12000, 20000]) }
+                } else {
+                    CStep::Restart { node }
+                }
             } else {
                 CStep::Advance { ms: 100 }
             };
